@@ -40,7 +40,7 @@ BOUNDS = {
              'white-space variants on 3x3 operator pairs. C selects concrete texts by symbolic indices.',
     'thorough': 'A: <=5 records with reuse, 6 records without; B: <=5 records; C: all pairs x prefix/suffix '
                 'placements and all triples of binary operators on default, legacy and 8 insert_operator tables '
-                '(seeded), variants on 5x5 pairs'}
+                '(4 of them seeded, on their focus operators), variants on 4x4 pairs on default and legacy'}
 OUTSIDE = ['sequences of more than 3 binary operators', 'non-homogeneous groups',
            'that ply resolves shift/reduce conflicts from the precedence declaration as documented is tested per '
            'concrete table by C, not proved for all tables',
@@ -253,9 +253,10 @@ def variants(o1: int, o2: int, shape: int, where: int, paren: int, ws: int, u: i
     pre: 0 <= u < len(PRES)
     post: _
     """
-    a, b, shape_name, where, p, ws, pu = OPS1[o1], OPS2[o2], SHAPES[shape], [0, 1, 2][where], PARENS[paren], \
-        [0, 1, 2][ws], PRES[u]
+    a, b, shape_name, where, p, ws, pu = OPS1[o1], OPS2[o2], SHAPES[shape], ['0', '1', '2'][where], PARENS[paren], \
+        ['0', '1', '2'][ws], PRES[u]
     with H.NoTracing():
+        where, ws = int(str(where)), int(str(ws))
         operands = [[('v', n)] for n in ('$a', '$b', '$c')]
         operands[where] = operand_tokens(shape_name, ('$a', '$b', '$c')[where], a)
         pre = [('pre', pu)] if pu is not None else []
@@ -281,29 +282,38 @@ FIXED_TOKENS = ['KEYWORD_STRING', 'QUOTED_STRING', 'NUMBER', 'FUNC', 'DOLLAR', '
                 'TRUE', 'FALSE', 'NULL']
 
 
+GROUP_TYPE = {(0, 0): 'left', (0, 1): 'right', (1, 0): 'suffix', (1, 1): 'prefix-only'}
+
+
 def decode_table(n, g, ta, tb, p):
-    """homogeneous table by construction: g[i] = record i opens a new group; (ta,tb)[i] = type of the group opened at i
-    (left / right / suffix-only; the fourth code is rejected); p[i] = record i is a prefix operator (left/right groups).
-    Bits that do not matter for a record are never looked at, so they do not split paths."""
+    """homogeneous table by construction, each exactly once: g[i] = record i opens a new group; (ta,tb)[i] = type of
+    the group opened at i (left / right / suffix-only / prefix-only); p[i] = record i is a prefix operator (left/right
+    groups; the last record of such a group is binary when none was before).  Bits that do not matter for a record
+    are never read, so they do not split paths."""
     kinds, breaks = [], []
     gtype = None
+    seen_binary = False
     for i in range(n):
         new = True if i == 0 else bool(g[i])
         if new:
+            seen_binary = False
             if ta[i]:
-                if tb[i]:
-                    return None
-                gtype = 'suffix'
+                gtype = 'prefix' if tb[i] else 'suffix'
             else:
                 gtype = 'right' if tb[i] else 'left'
         if i:
             breaks.append(new)
         if gtype == 'suffix':
             kinds.append(R.SUFFIX)
-        elif p[i]:
+        elif gtype == 'prefix':
             kinds.append(R.PREFIX)
         else:
-            kinds.append(R.LEFT if gtype == 'left' else R.RIGHT)
+            last = i == n - 1 or bool(g[i + 1])
+            if (last and not seen_binary) or not p[i]:
+                kinds.append(R.LEFT if gtype == 'left' else R.RIGHT)
+                seen_binary = True
+            else:
+                kinds.append(R.PREFIX)
     return kinds, breaks
 
 
@@ -326,9 +336,10 @@ def reuse_candidates(kinds, two):
 
 
 def table_pre(g, ta, tb, p, r):
-    d = decode_table(NA, g, ta, tb, p)
-    if d is None:
+    first = H.P('first')            # shard: type code of the first group, and whether record 1 opens a group
+    if first is not None and (bool(ta[0]), bool(tb[0]), bool(g[1])) != (bool(first[0]), bool(first[1]), bool(first[2])):
         return False
+    d = decode_table(NA, g, ta, tb, p)
     with H.NoTracing():
         ncand = len(reuse_candidates(d[0], H.P('reuse2', False)))
     return 0 <= r < ncand
@@ -432,13 +443,13 @@ def table_to_ply(g: List[bool], ta: List[bool], tb: List[bool], p: List[bool], r
             if i and breaks[i - 1]:
                 recs.append(())
             recs.append((syms[i], kinds[i], 'alias%d' % i) if i % 2 == 0 else (syms[i], kinds[i]))
-    # ---- the real code (traced)
-    fac = yfactory.YaqlFactory()
-    fac.operators = list(recs)
-    ops = fac._build_operator_table(fac._name_generator())
-    lx = ylexer.Lexer(ops)
-    ps = yparser.Parser(lx, ops, fac)
-    with H.NoTracing():
+        # ---- the real code; every input is concrete on this path (the solver booleans were all read by decode_table),
+        # so it runs natively
+        fac = yfactory.YaqlFactory()
+        fac.operators = list(recs)
+        ops = fac._build_operator_table(fac._name_generator())
+        lx = ylexer.Lexer(ops)
+        ps = yparser.Parser(lx, ops, fac)
         ok = check_ply(recs, lx, ps)
     return H.done(ok)
 
@@ -582,10 +593,16 @@ def conditions(tier, seed):
     # ---- A
     nmax = 4 if quick else 5
     for n in range(1, nmax + 1):
-        add('A.table_to_ply[n=%d]' % n, 'table_to_ply', {'n': n, 'reuse2': (not quick and n <= 4)},
-            'all homogeneous tables of exactly %d records (kinds, group breaks as solver booleans), each with every '
-            'choice of <=%d unary record(s) taking a binary record\'s symbol; each path is one table'
-            % (n, 2 if (not quick and n <= 4) else 1), timeout=900 if quick else 3000)
+        firsts = [None] if n < 4 else [[a, b, c] for a in (0, 1) for b in (0, 1) for c in (0, 1)]
+        for first in firsts:
+            add('A.table_to_ply[n=%d%s]' % (n, '' if first is None else ',first=%s%s' % (
+                GROUP_TYPE[tuple(first[:2])], '|' if first[2] else '')),
+                'table_to_ply', {'n': n, 'reuse2': (not quick and n <= 4), 'first': first},
+                'all homogeneous tables of exactly %d records (kinds, group breaks as solver booleans)%s, each with '
+                'every choice of <=%d unary record(s) taking a binary record\'s symbol; each path is one table'
+                % (n, '' if first is None else ', first group %s of %s' % (
+                    GROUP_TYPE[tuple(first[:2])], 'one record' if first[2] else 'at least two records'),
+                   2 if (not quick and n <= 4) else 1), timeout=600 if quick else 3000)
     # ---- B
     nb = 3 if quick else 4
     for n in range(1, nb + 1):
@@ -632,24 +649,20 @@ def conditions(tier, seed):
     for label, sp in specs:
         f = make_factory(sp)
         tab = R.Table(f.operators)
-        base = R.Table(make_factory(sp if isinstance(sp, str) and sp in ('default', 'legacy')
-                                    else (INSERT_TABLES[sp][0] if isinstance(sp, str) else sp[0])).operators)
+        base = R.Table(make_factory(INSERT_TABLES[sp][0] if isinstance(sp, str) else sp[0]).operators)
         foc, new = focus_ops(tab, base)
-        if quick:
-            pres = [p for p in tab.preops if p in new] + ['-']
-            param = {'table': sp, 'ops1': foc, 'ops2': foc}
-            if len(tab.sufops):
-                param['pres'] = pres[:1]
+        pres = [p for p in tab.preops if p in new] + ['-']
+        if quick or label.startswith('seeded'):
+            param = {'table': sp, 'ops1': foc, 'ops2': foc, 'pres': pres if quick else pres + ['not']}
             add('C.pairs[%s]' % label, 'pairs', param,
-                'table %s: pairs over %s x all prefix (and suffix) placements' % (label, foc), timeout=400)
+                'table %s: ordered pairs over %s x placements of <=2 prefix operators from %s (and <=2 suffix '
+                'operators)' % (label, foc, param['pres']), timeout=600)
         else:
             for a in tab.binops:
-                param = {'table': sp, 'ops1': [a]}
-                if len(tab.sufops):
-                    param['pres'] = [p for p in tab.preops if p in new] + ['-', 'not']
+                param = {'table': sp, 'ops1': [a], 'pres': pres + ['not']}
                 add('C.pairs[%s,%s]' % (label, a), 'pairs', param,
-                    'table %s: first operator %s x every second operator x prefix/suffix placements' % (label, a),
-                    timeout=600)
+                    'table %s: first operator %s x every second operator x placements of <=2 prefix operators from '
+                    '%s (and <=2 suffix operators)' % (label, a, param['pres']), timeout=600)
     # triples without prefixes
     if not quick:
         for tname in ('default', 'legacy'):
@@ -663,10 +676,11 @@ def conditions(tier, seed):
             add('C.triples[default,%s]' % a, 'triples', {'table': 'default', 'ops1': [a]},
                 'default table: first operator %s, every 2nd and 3rd binary operator, no prefix' % a, timeout=400)
     # variants: parentheses, index, call, list, map, white space
-    vops = ['.', '*', '->'] if quick else ['.', '*', '+', 'and', '->']
-    for tname in (('default',) if quick else ('default', 'legacy', 'suffix-group')):
+    vops = ['.', '*', '->'] if quick else ['.', '*', 'and', '->']
+    vops2 = ['*', '->'] if quick else vops
+    for tname in (('default',) if quick else ('default', 'legacy')):
         for sh in SHAPES_ALL:
-            add('C.variants[%s,%s]' % (tname, sh), 'variants', {'table': tname, 'ops1': vops, 'ops2': vops,
+            add('C.variants[%s,%s]' % (tname, sh), 'variants', {'table': tname, 'ops1': vops2 if sh == 'method' else vops, 'ops2': vops2,
                                                                'shapes': [sh], 'pres': ['-'] if quick else ['-', 'not']},
                 '%s table: operator pairs over %s, operand shape %s at each of 3 positions, 5 parenthesisations, 3 '
                 'white-space renderings, optional leading prefix operator' % (tname, vops, sh), timeout=400)
